@@ -57,7 +57,7 @@ def kt_ob(name, spec, family='', bounds='', timeout=120, cost=5, known=None):
     def run(known=(), replay=None):
         t0 = time.perf_counter()
         q0, s0 = K.STATS['queries'], K.STATS['time']
-        K.SECOND.update(agree=0, disagree=0, inconclusive=0)
+        K.SECOND.clear(); K.SECOND.update(agree=0, disagree=0, inconclusive=0)
         res = {'name': name, 'kind': 'kt', 'family': family or name.split('[')[0], 'bounds': bounds}
         try:
             sp = spec()
